@@ -144,12 +144,21 @@ func c07Day(c *vh.Ctx, run *nRun, i int) {
 	harvest := s.AKF != e.AKF
 	totSlow := func(x nSnap) float64 { return sum(x.Naos[:]) + sum(x.Minaos[:]) }
 	totFast := func(x nSnap) float64 { return sum(x.Nfos[:]) + sum(x.Minfos[:]) }
+	// automatic organic fertiliser due today (automan table + rotation file + FERTILIZ.TXT): what one application adds to the top layer
+	manF, manA := 0.0, 0.0
+	if !fert && !harvest && !d.CropDay {
+		manF, manA = c07ManureDay(c, run, d, totFast(e)-totFast(s), totSlow(e)-totSlow(s), payload)
+	}
+	c07LaterSubsteps(c, d, payload)
 	switch {
 	case !fert && !till && !harvest && !d.CropDay:
 		c.Count("run:day-without-organic-input")
 		for z := 0; z < 21; z++ {
 			a0, a1 := s.Naos[z], e.Naos[z]
 			f0, f1 := s.Nfos[z], e.Nfos[z]
+			if z == 0 {
+				a0, f0 = a0+manA, f0+manF
+			}
 			if z < 4 {
 				a0 += s.Minaos[z]
 				a1 += e.Minaos[z]
@@ -168,10 +177,10 @@ func c07Day(c *vh.Ctx, run *nRun, i int) {
 		}
 	case till && !fert && !harvest && !d.CropDay:
 		c.Count("run:tillage-day")
-		if dd := totSlow(e) - totSlow(s); math.Abs(dd) > relTol(totSlow(s), totSlow(e)) {
+		if dd := totSlow(e) - totSlow(s) - manA; math.Abs(dd) > relTol(totSlow(s), totSlow(e)) {
 			c.Violate("search", "run:pool-conservation:tillage:slow", fmt.Sprintf("%s: tillage day changes Σ(NAOS+MINAOS) by %.6g", d.Date, dd), payload())
 		}
-		if dd := totFast(e) - totFast(s); math.Abs(dd) > relTol(totFast(s), totFast(e)) {
+		if dd := totFast(e) - totFast(s) - manF; math.Abs(dd) > relTol(totFast(s), totFast(e)) {
 			c.Violate("search", "run:pool-conservation:tillage:fast", fmt.Sprintf("%s: tillage day changes Σ(NFOS+MINFOS) by %.6g", d.Date, dd), payload())
 		}
 	default:
